@@ -28,6 +28,7 @@ import json
 import logging
 import os
 from collections import Counter
+from concurrent.futures import ThreadPoolExecutor
 
 from .. import nested_values as nv
 from ..core import Ctx, MachineryError
@@ -51,7 +52,7 @@ META = {
             "at least one leaf on its traversal",
 }
 
-ALL_KINDS = '{"list", "tuple", "nt", "set", "dict", "dc"}'
+ALL_KINDS = '{"list", "tuple", "nt", "set", "dict", "dict2", "dc"}'
 LAWS = ["ShapeLaw", "VisitLaw", "LeafLaw", "RelabelLaw", "WFLaw", "AsBuiltShapeUnlessDev",
         "AsBuiltDevRaises"]
 FAMS = ["int", "str", "misc"]
@@ -149,10 +150,10 @@ class Real:
                 out[j] = self.sched_trees([items[j]], wrap)[0]
             return out
         _, passthru = nv.tasks()
-        s = self.scheduler()
         out: list = [None] * len(items)
 
         def go(lo, hi):
+            s = self.scheduler()
             exprs = [self.lazy(*items[j]) for j in range(lo, hi)]
             if wrap:
                 exprs = [passthru(e) for e in exprs]
@@ -161,6 +162,8 @@ class Real:
                 for j, r in zip(range(lo, hi), res):
                     out[j] = nv.abstract(r, items[j][1], with_cls=True)
             except Exception as e:
+                # a run that raised leaves jobs behind in the scheduler: start a fresh one
+                self._sched = None
                 if hi - lo == 1:
                     t = dict(nv.ERR)
                     t["exc"] = f"{type(e).__name__}: {e}"
@@ -350,7 +353,7 @@ def rand_tree(rng, depth: int, width: int, nleaf: int, need_hashable: bool = Fal
 def _distinct(trees: list) -> list:
     seen, out = set(), []
     for t in trees:
-        c = nv.canon(t)
+        c = nv.canon(t, keynorm=True)  # distinct as Python set elements / dict keys
         if c not in seen:
             seen.add(c)
             out.append(t)
@@ -364,7 +367,7 @@ def rand_fn(rng, nleaf: int) -> list:
 
 
 def record_cases(ctx: Ctx, real: Real, n: int, depth: int, width: int, nleaf: int) -> list:
-    cases, sched_items, sched_idx = [], [], []
+    cases, sched_items, sched_idx, raised = [], [], [], []
     for _ in range(n):
         tree = rand_tree(ctx.rng, ctx.rng.randint(2, depth), width, nleaf)
         fseq = rand_fn(ctx.rng, nleaf)
@@ -377,14 +380,17 @@ def record_cases(ctx: Ctx, real: Real, n: int, depth: int, width: int, nleaf: in
         if ctx.rng.random() < 0.5:
             sched_items.append((tree, family, f))
             sched_idx.append(len(cases) - 1)
+            raised.append(got["k"] == "error")
     for wrap in (False, True):
         # plain: the value itself is what Scheduler.run evaluates; wrapped: the value is the
         # argument (and the result) of a task, so it also passes argument evaluation,
         # preprocess / postprocess mapping and the value store
-        sel = [(it, ix) for it, ix in zip(sched_items, sched_idx)
+        sel = [(it, ix, r) for it, ix, r in zip(sched_items, sched_idx, raised)
                if not wrap or (it[0]["k"] not in ("set",) and ctx.rng.random() < 0.25)]
-        res = real.sched_trees([s[0] for s in sel], wrap=wrap)
-        for ((tree, family, f), ix), got in zip(sel, res):
+        # values on which the mapper itself raised get a scheduler run of their own (a raising
+        # run would otherwise take its whole batch down; this is batching, not judging)
+        res = real.sched_trees([s[0] for s in sel], wrap=wrap, solo={j for j, s in enumerate(sel) if s[2]})
+        for ((tree, family, f), ix, _), got in zip(sel, res):
             base = cases[ix]
             cases.append({"v": tree, "f": base["f"], "it": base["it"], "vis": base["it"],
                           "r": nv.strip(got), "seam": "sched-arg" if wrap else "sched", "family": family,
@@ -395,9 +401,12 @@ def record_cases(ctx: Ctx, real: Real, n: int, depth: int, width: int, nleaf: in
 def validate_cases(ctx: Ctx, cases: list, what: str) -> dict:
     f = ctx.tmp(f"cases_{what}.json")
     f.write_text(json.dumps([{k: c[k] for k in ("v", "f", "it", "vis", "r")} for c in cases]))
-    cfg = "SPECIFICATION Spec\nINVARIANT Emit\nINVARIANT WellFormedInputs\nCHECK_DEADLOCK FALSE\n"
-    res = run_tlc("common/Values_Trace.tla", cfg, ctx.scratch, workers=1, env={"TRACE_FILE": str(f)},
-                  timeout=900)
+    w = int(os.environ.get("VERIF_WORKERS", "0")) or 8
+    cfg = (f"SPECIFICATION Spec\nCONSTANTS\n Chains = {4 * w}\nINVARIANT Emit\nINVARIANT WellFormedInputs\n"
+           "CHECK_DEADLOCK FALSE\n")
+    # verdict lines carry their case index, so several workers may print them in any order
+    res = run_tlc("common/Values_Trace.tla", cfg, ctx.scratch / f"trace_{what}", workers=w,
+                  env={"TRACE_FILE": str(f)}, timeout=900)
     if res.error or res.violated:
         raise MachineryError(f"TLC failed on case validation ({what}): {res.error} {res.violated}\n{res.out[-2500:]}")
     ctx.add_tlc(res)
@@ -450,10 +459,17 @@ def run(ctx: Ctx) -> None:
     real = Real()
     fd = Findings(ctx)
 
-    # ---- 1. laws on the whole universe + emission (spec -> code) -------------------------------
+    # TLC runs are started in the background (each costs seconds of JVM start-up) while the main
+    # thread records real executions; at most `ahead` universe runs are in flight / in memory
     w = int(os.environ.get("VERIF_WORKERS", "0")) or "auto"
+    pool = ThreadPoolExecutor(max_workers=4)
+
+    def tlc_bg(name, module, cfg, **kw):
+        return pool.submit(run_tlc, module, cfg, ctx.scratch / name, **kw)
+
+    # ---- 1. laws on the whole universe + emission (spec -> code): configurations ----------------
     opaque = dict(nleaf=3, depth=2, width=3, ocls="{1, 2, 3, 4, 5, 6}",
-                  kinds='{"list", "tuple", "nt", "set", "fset", "dict", "dc"}')
+                  kinds='{"list", "tuple", "nt", "set", "fset", "dict", "dict2", "dc"}')
     if ctx.quick:
         # depth 3 over two leaf values; the roots' child LISTS have one slot, two slots are kept
         # where they play different roles (set elements, dict key/value, init/non-init field)
@@ -463,43 +479,30 @@ def run(ctx: Ctx) -> None:
         # the full 3-leaf, depth-3, width-2 universe, one root kind at a time (memory)
         for kinds, dcs in [('{"list"}', "{}"), ('{"tuple"}', "{}"), ('{"nt"}', "{}"),
                            ('{"set", "dict"}', "{}"), ('{"dc"}', "{1}"), ('{"dc"}', "{2}"), ('{"dc"}', "{3}")]:
-            runs.append((f"d3_l3_w2_root{kinds}{dcs}".replace('"', ""),
+            runs.append((f"d3_l3_w2_root{kinds}{dcs}".replace('"', "").replace(" ", ""),
                          dict(nleaf=3, depth=3, width=2, top=(kinds, dcs))))
-    total = Counter()
-    first = True
-    for name, kw in runs:
-        res = expect_clean(run_tlc("common/Values_Gen.tla", gen_cfg(**kw), ctx.scratch, workers=w, timeout=1500,
-                                   heap="8g"), f"Values_Gen laws ({name})")
-        ctx.add_tlc(res)
-        recs = res.recs("TREE")
-        res.out = ""
-        ctx.require(len(recs) == res.distinct, f"{name}: {len(recs)} trees emitted, {res.distinct} states")
-        ctx.note(f"universe_{name}", len(recs))
-        every = 1 if (ctx.quick or kw["nleaf"] < 3 or kw["depth"] < 3) else 3
-        total += replay_universe(ctx, real, fd, recs, kw["nleaf"], name, sched_every=every,
-                                 corrupt_control=first)
-        if first:
-            mid = recs[len(recs) // 2]
-            ctx.sample({"source": f"tlc-universe {name}", "tree": mid["v"], "leaves": mid["l"],
-                        "mapped": mid["m"]})
-        first = False
-        del recs
-    ctx.note("replay_totals", dict(total))
+    ahead = 2
+    futs = {}
 
-    # ---- 2. model-level controls ---------------------------------------------------------------
+    def start(k):
+        if k < len(runs):
+            name, kw = runs[k]
+            futs[k] = tlc_bg(name, "common/Values_Gen.tla", gen_cfg(**kw), workers=w, timeout=1500, heap="8g")
+
+    for k in range(ahead):
+        start(k)
+
+    # ---- 2. model-level controls (background) ---------------------------------------------------
     small = dict(nleaf=2, depth=2, width=2, emit=False)
-    r = run_tlc("common/Values_Gen.tla", gen_cfg(invs=["AsBuiltShapeStrict", "ShapeLawAnyF"], **small),
-                ctx.scratch, workers=1, extra=["-continue"])
-    expect_violation(r, "AsBuiltShapeStrict", "as-built mapper breaks the shape law (through its deviations)")
-    expect_violation(r, "ShapeLawAnyF", "shape law needs an injective leaf function (sets / dict keys merge)")
-    ctx.add_tlc(r)
-    r = run_tlc("common/Values_Gen.tla", gen_cfg(invs=LAWS + ["AsBuiltShapeStrict"], dcs="{1}", **small),
-                ctx.scratch, workers=1)
-    expect_clean(r, "named laws; as-built mapper keeps the shape law once the deviating dataclass flavours are excluded")
-    ctx.add_tlc(r)
+    ctl_bad = tlc_bg("ctl_bad", "common/Values_Gen.tla",
+                     gen_cfg(invs=["AsBuiltShapeStrict", "ShapeLawAnyF"], **small), workers=1, extra=["-continue"])
+    ctl_ok = None
+    if not ctx.quick:
+        ctl_ok = tlc_bg("ctl_ok", "common/Values_Gen.tla",
+                        gen_cfg(invs=LAWS + ["AsBuiltShapeStrict"], dcs="{1}", **small), workers=1)
 
-    # ---- 3. code -> spec: random larger values judged by TLC ------------------------------------
-    n = ctx.pick(700, 6000)
+    # ---- 3. code -> spec: random larger values, recorded now, judged by TLC ----------------------
+    n = ctx.pick(500, 6000)
     cases = record_cases(ctx, real, n, depth=ctx.pick(4, 5), width=ctx.pick(3, 4), nleaf=4)
     # negative controls: (a) one yielded leaf dropped, (b) one result leaf changed
     src = next(c for c in cases if c["seam"] == "map" and c["r"]["k"] not in ("error", "leaf", "oleaf", "fset")
@@ -509,7 +512,42 @@ def run(ctx: Ctx) -> None:
     bad_r = copy.deepcopy(src)
     _first_leaf(bad_r["r"])["t"] += 1
     allc = cases + [bad_it, bad_r]
-    verdicts = validate_cases(ctx, allc, "random")
+    vfut = pool.submit(validate_cases, ctx, allc, "random")
+
+    # ---- 1'. replay of every emitted tree --------------------------------------------------------
+    total = Counter()
+    for k, (name, kw) in enumerate(runs):
+        res = expect_clean(futs.pop(k).result(), f"Values_Gen laws ({name})")
+        start(k + ahead)
+        ctx.add_tlc(res)
+        recs = res.recs("TREE")
+        res.out = ""
+        res.records = {}
+        ctx.require(len(recs) == res.distinct, f"{name}: {len(recs)} trees emitted, {res.distinct} states")
+        ctx.note(f"universe_{name}", len(recs))
+        every = 1 if (ctx.quick or kw["nleaf"] < 3 or kw["depth"] < 3) else 3
+        total += replay_universe(ctx, real, fd, recs, kw["nleaf"], name, sched_every=every,
+                                 corrupt_control=(k == 0))
+        if k == 0:
+            mid = recs[len(recs) // 2]
+            ctx.sample({"source": f"tlc-universe {name}", "tree": mid["v"], "leaves": mid["l"],
+                        "mapped": mid["m"]})
+        del recs
+    ctx.note("replay_totals", dict(total))
+
+    # ---- 2'. controls ---------------------------------------------------------------------------
+    r = ctl_bad.result()
+    expect_violation(r, "AsBuiltShapeStrict", "as-built mapper breaks the shape law (through its deviations)")
+    expect_violation(r, "ShapeLawAnyF", "shape law needs an injective leaf function (sets / dict keys merge)")
+    ctx.add_tlc(r)
+    if ctl_ok is not None:
+        r = expect_clean(ctl_ok.result(), "named laws one by one; as-built mapper keeps the shape law once the "
+                                          "deviating dataclass flavours are excluded")
+        ctx.add_tlc(r)
+
+    # ---- 3'. verdicts on the recorded executions ---------------------------------------------------
+    verdicts = vfut.result()
+    pool.shutdown()
     ctx.negative_control(verdicts[len(cases) + 1][0] == 0, "a recorded iteration with one leaf dropped must be rejected by TLC")
     ctx.negative_control(verdicts[len(cases) + 2][2] == 0, "a recorded result with one leaf changed must be rejected by TLC")
     stats = judge_verdicts(ctx, fd, cases, {i: verdicts[i] for i in range(1, len(cases) + 1)})
